@@ -340,6 +340,27 @@ fn path_ops(cat: &mut Cat) {
     }
 }
 
+/// a loop that is nearly a cusp at t = 0.5 (F25): (-a,0), (b,c), (-b,c), (a,0) has a cusp for b = a and a loop for b > a; with
+/// b = a(1+e), e from 1e-3 down to 1e-15, both halves of the curve can be characterised as loops
+fn nearly_cusped_loop(rng: &mut Rng, it: u64) -> Cub {
+    let (a, c) = (rng.r(5.0, 100.0), rng.r(10.0, 100.0));
+    let e = [1e-3, 1e-5, 1e-7, 1e-9, 1e-11, 1e-13, 1e-15][(it % 7) as usize] * rng.r(0.5, 1.5);
+    let b = a * (1.0 + e);
+    let (ox, oy) = if it % 3 == 0 { (0.0, 0.0) } else { (rng.r(-100.0, 100.0), rng.r(-100.0, 100.0)) };
+    let skew = if it % 2 == 0 { 0.0 } else { rng.r(-0.5, 0.5) * e * a };
+    [Coord2(-a + ox, oy), Coord2(b + ox + skew, c + oy), Coord2(-b + ox, c + oy), Coord2(a + ox, oy)]
+}
+
+fn nearly_cusped_loops(cat: &mut Cat, n: u64) {
+    let mut rng = Rng(0xC20_F25);
+    for it in 0..n {
+        let w = nearly_cusped_loop(&mut rng, it);
+        let inp = format!("curve={}", fmt_cub(&w));
+        run(cat, "find_self_intersection_point", "nearly_cusped_loop", &format!("{} accuracy=0.01", inp), move || { if let Some((a, b)) = find_self_intersection_point(&lib_curve(&w), 0.01) { f1("t1", a)?; f1("t2", b)?; } Ok(()) });
+        run(cat, "features", "nearly_cusped_loop", &format!("{} accuracy=0.01", inp), move || match lib_curve(&w).features(0.01) { CurveFeatures::Loop(a, b) => { f1("loop t1", a)?; f1("loop t2", b) } _ => Ok(()) });
+    }
+}
+
 pub fn search(_seed: u64, n: u64) {
     install_silent_hook();
     start_memory_watchdog(4096);
@@ -351,6 +372,7 @@ pub fn search(_seed: u64, n: u64) {
     for s in scales.iter() { for (name, w) in base_curves() { curves.push((format!("{}{}", name, scale_name(*s)), [0, 1, 2, 3].map(|k| w[k] * *s), *s)); } }
     for (name, w, s) in curves.iter() { curve_ops(&mut cat, name, *w, *s); }
     curve_pairs(&mut cat, &curves);
+    nearly_cusped_loops(&mut cat, if n >= 100000 { 3000 } else { 400 });
     line_ops(&mut cat);
     fit_ops(&mut cat);
     path_ops(&mut cat);
@@ -552,10 +574,10 @@ fn selfint_terminal<'a>(c: &'a Curve<Coord2>) -> Option<(CurveSection<'a, Curve<
     for _ in 0..4000 {
         let (l, r) = (s.subsection(0.0, 0.5), s.subsection(0.5, 1.0));
         match (l.characteristics() == CurveCategory::Loop, r.characteristics() == CurveCategory::Loop) {
-            (true, true) => return None,
             (true, false) => { s = l; }
             (false, true) => { s = r; }
-            (false, false) => return Some((l, r)),
+            // neither half is a loop, or (since repair F25) both are: the clipper runs on the two halves
+            _ => return Some((l, r)),
         }
     }
     None
@@ -581,8 +603,9 @@ fn selfint_curve(rng: &mut Rng) -> (Cub, &'static str) {
 /// lines `C20 selfint R w(8) accuracy la lb ra rb #k (u1 u2)* | #flag t1 t2` (flag 0: None, 1: Some, 2: panic)
 pub fn corr_selfint(seed: u64, n: u64, stats: &mut Stats) {
     let mut rng = Rng(seed ^ 0xC205E1F);
-    for _ in 0..n {
-        let (w, kind) = selfint_curve(&mut rng);
+    let mut rng2 = Rng(seed ^ 0xC20F25);
+    for it in 0..(n + n / 2) {
+        let (w, kind) = if it < n { selfint_curve(&mut rng) } else { (nearly_cusped_loop(&mut rng2, it), "nearly_cusped_loop") };
         let c = lib_curve(&w);
         let accuracy = [0.01, 0.1, 1e-4][rng.i(3) as usize];
         let term = selfint_terminal(&c);
